@@ -574,7 +574,149 @@ def replay_conc(path, v, cfg, spec):
     return main(["C15", "quick"])
 
 
-ENGINES = {"apimon": engine_apimon, "transcript": engine_transcript, "conc": engine_conc}
+CT_OPS32 = ["keygen", "generatekey", "sign", "signctx", "signph", "x25519base", "scalarbasemult", "edpriv", "seed"]
+CT_NEED = {"keygen": "ScalarmultBaseNiels", "generatekey": "ScalarmultBaseNiels", "sign": "ScalarmultBaseNiels", "signctx": "ScalarmultBaseNiels",
+           "signph": "ScalarmultBaseNiels", "x25519base": "ScalarmultBaseNiels", "scalarbasemult": "ScalarmultBaseNiels", "edpriv": "EdPrivateKeyToX25519", "seed": None, "equal": None}
+
+
+def ct_cases(seed, thorough, slow=False):
+    import random
+    rnd = random.Random(seed * 7 + 20)
+    ref = rnd.randbytes(32)
+    secs = [ref, bytes(32), b"\xff" * 32, b"\x77" * 32, b"\x88" * 32]
+    one = bytearray(32)
+    one[rnd.randrange(32)] = 1 << rnd.randrange(8)
+    secs.append(bytes(one))
+    nrand = 2 if not thorough else 8
+    for _ in range(nrand):
+        secs.append(rnd.randbytes(32))
+    if thorough:
+        secs += [b"\x0f" * 32, b"\xf0" * 32, b"\x80" + bytes(31), bytes(31) + b"\x80", b"\x78" * 32, b"\x99" * 32]
+    pub = rnd.randbytes(24)
+    cases = []
+    ops = CT_OPS32
+    for op in ops:
+        sl = secs
+        if not thorough and op in ("signctx", "signph", "scalarbasemult", "generatekey", "edpriv", "seed"):
+            sl = secs[:4]
+        if slow:
+            sl = secs[:3]
+        cases.append((op, [(x, x) for x in sl], pub))
+    # Equal: arbitrary 64-byte keys; reference pair is (K, K)
+    K = rnd.randbytes(64)
+    def flip(i):
+        b = bytearray(K)
+        b[i] ^= 1 << rnd.randrange(8)
+        return bytes(b)
+    pairs = [(K, K)] + [(K, flip(i)) for i in (0, 7, 8, 31, 32, 40, 63)] + [(K, bytes(x ^ 0xff for x in K))]
+    if thorough:
+        pairs += [(K, flip(i)) for i in (1, 15, 16, 24, 33, 47, 48, 56)]
+    if slow:
+        pairs = pairs[:4]
+    cases.append(("equal", pairs, pub))
+    return cases
+
+
+def engine_ct(prop, tier, seed, spec):
+    """C20: lackey instruction/address traces of executions differing only in secrets."""
+    import pickle
+    sys.path.insert(0, os.path.join(VERIF, "tools"))
+    import cttrace
+    agg = Agg(prop, tier, seed)
+    thorough = tier == "thorough"
+    wdir = os.path.join(WORK, prop, "shards")
+    shutil.rmtree(wdir, ignore_errors=True)
+    os.makedirs(wdir, exist_ok=True)
+    bins = {}
+    for cfg in spec["configs"][tier]:
+        try:
+            bins[cfg] = build(cfg, "ctvictim", static=True)
+        except BuildError as e:
+            log(str(e))
+            agg.inconclusive.append("%s: build failed" % cfg)
+    jobs = []
+    plan = {}
+    pyenv = goenv()
+    for cfg, binp in bins.items():
+        slow = CONFIGS[cfg]["env"].get("GOARCH") == "386"
+        for op, pairs, pub in ct_cases(seed, thorough, slow):
+            for k, (a, b) in enumerate(pairs):
+                out = os.path.join(wdir, "%s-%s-%d.pkl" % (cfg, op, k))
+                jobs.append({"cfg": cfg, "op": op, "k": k, "out": out, "log": out + ".log", "env": pyenv,
+                             "args": [sys.executable, os.path.join(VERIF, "tools", "cttrace.py"), "trace", binp, out, op, a.hex(), b.hex(), pub.hex()]})
+                plan.setdefault((cfg, op), []).append((k, a, b, pub, out))
+    res = run_shards(jobs, spec.get("timeout", {}).get(tier, 1800))
+    bad_jobs = {(j["cfg"], j["op"], j["k"]): (st, rc) for j, st, rc in res if st != "ok"}
+    ntr = 0
+    for (cfg, op), lst in plan.items():
+        binp = bins[cfg]
+        traces = {}
+        for k, a, b, pub, out in lst:
+            if (cfg, op, k) in bad_jobs or not os.path.exists(out):
+                agg.inconclusive.append("%s %s secret #%d: trace not obtained %s" % (cfg, op, k, bad_jobs.get((cfg, op, k))))
+                continue
+            traces[k] = pickle.load(open(out, "rb"))
+            os.remove(out)
+            ntr += 1
+        if 0 not in traces:
+            continue
+        ref = traces[0]
+        need = CT_NEED.get(op)
+        if need and not any(need in f for f in ref["funcs"]):
+            agg.inconclusive.append("%s %s: traced window does not contain %s" % (cfg, op, need))
+            continue
+        agg.classes["traces/%s/%s" % (cfg, op)] = len(traces)
+        agg.classes["max/trace-instructions/%s" % op] = max(agg.classes.get("max/trace-instructions/%s" % op, 0), len(ref["pcs"]))
+        agg.classes["max/trace-memops/%s" % op] = max(agg.classes.get("max/trace-memops/%s" % op, 0), len(ref["mem"]))
+        if len(agg.samples) < 8:
+            libf = sorted((f for f in ref["funcs"] if "oasisprotocol/ed25519" in f), key=lambda f: -ref["funcs"][f])[:8]
+            agg.samples.append({"config": cfg, "op": op, "secrets_compared": len(traces), "instructions_in_window": len(ref["pcs"]), "memory_ops": len(ref["mem"]),
+                                "functions_in_window": len(ref["funcs"]), "top_library_functions": libf})
+        for k, a, b, pub, out in lst:
+            if k == 0 or k not in traces:
+                continue
+            agg.evaluations += 1
+            agg.hashes.add(hashlib.sha1(("%s/%s/%s/%s" % (cfg, op, a.hex(), b.hex())).encode()).digest()[:8])
+            d = cttrace.compare(binp, ref, traces[k])
+            if d is None:
+                continue
+            # a divergence must reproduce in fresh traces of both executions (3 of 3)
+            k0, a0, b0, _, _ = lst[0]
+            repro = 1
+            for _ in range(2):
+                t1 = cttrace.trace(binp, [op, a0.hex(), b0.hex(), pub.hex()])
+                t2 = cttrace.trace(binp, [op, a.hex(), b.hex(), pub.hex()])
+                if cttrace.compare(binp, t1, t2) is not None:
+                    repro += 1
+            if repro < 3:
+                agg.inconclusive.append("%s %s secret #%d: divergence (%s) reproduced only %d of 3 times" % (cfg, op, k, d.get("kind"), repro))
+                continue
+            agg.violations.append({"property": prop, "sub": "trace-equality", "config": cfg, "sig": "ct/%s/%s" % (op, d.get("kind")),
+                                   "what": "%s: executions differing only in the secret diverge (%s): %s" % (op, d.get("kind"), json.dumps(d)[:400]),
+                                   "case": {"op": "ct", "ct_op": op, "secret_a": a0.hex(), "secret_a2": b0.hex(), "secret_b": a.hex(), "secret_b2": b.hex(), "public": pub.hex(), "divergence": d}})
+    agg.classes["traces-total"] = ntr
+    for cfg in bins:
+        agg.configs[cfg] = {"evaluations": sum(v for k, v in agg.classes.items() if k.startswith("traces/%s/" % cfg)), "shards": 1}
+    return finish(agg, spec, {"tool": "valgrind --tool=lackey --trace-mem=yes", "window": "second markBegin..markEnd (first pair is a warm-up call with a dummy secret)"})
+
+
+def replay_ct(path, v, cfg, spec):
+    sys.path.insert(0, os.path.join(VERIF, "tools"))
+    import cttrace
+    c = v.get("case", {})
+    binp = build(cfg if cfg in CONFIGS else "K0", "ctvictim", static=True)
+    os.environ.update(GOENV)
+    t1 = cttrace.trace(binp, [c["ct_op"], c["secret_a"], c["secret_a2"], c["public"]])
+    t2 = cttrace.trace(binp, [c["ct_op"], c["secret_b"], c["secret_b2"], c["public"]])
+    d = cttrace.compare(binp, t1, t2)
+    if d is not None:
+        log("REPLAY-VIOLATION property=%s traces diverge: %s" % (v.get("property"), json.dumps(d)[:500]))
+        return 1
+    log("REPLAY-OK: traces are equivalent on this tree")
+    return 0
+
+
+ENGINES = {"apimon": engine_apimon, "transcript": engine_transcript, "conc": engine_conc, "ct": engine_ct}
 
 API_RULE_VERIFY = ("triples are built constructively with the big-integer model (W-honest, W-torsion 8x8, W-smallkey x W-Sbound, "
                    "W-noncanonR, single-bit perturbations, S+kL, W-garbage, signature lengths 0..70) and judged by the model predicate; "
@@ -599,6 +741,10 @@ SPECS = {
     "C15": {"engine": "conc", "configs": {"quick": ["K0", "K2"], "thorough": ["K0", "K1", "K2", "K4", "K5", "K6"]}, "floor": 15000,
             "rule": "evaluations = API calls executed in shuffled sequential orders and concurrently (G goroutines x GOMAXPROCS shapes, -race build) and compared with the solitary result of the same call from a fresh process; non-trivial/distinct = distinct ordered (predecessor, call) pairs in sequential mode plus distinct pairs of different calls whose executions overlapped (ticket counter) in concurrent mode",
             "assumptions": ["Go race detector (happens-before, reports only races that occur in observed executions; amd64 only, GOARCH=386 runs without it)", "solitary results come from the same build configuration, one fresh process per call", "interleavings are those the Go scheduler produced under the listed goroutine/GOMAXPROCS shapes with PRNG-driven Gosched"]},
+    "C20": {"engine": "ct", "configs": {"quick": ["K0", "K1", "K2"], "thorough": ["K0", "K1", "K2", "K3", "K4", "K5", "K6"]}, "floor": 60,
+            "rule": "one evaluation = one pair (reference secret, other secret) of lackey traces of the same operation with identical public inputs, compared on PC sequence, memory-op shape, static addresses and per-page-pair constant offsets of dynamic addresses; every pair is non-trivial (secrets differ); distinct = (config, op, secret pair)",
+            "assumptions": ["valgrind 3.19 lackey reports every executed guest instruction and memory access of the static Go binary", "Go runtime housekeeping (allocator, scheduler, GC, other threads) is excluded from the window by symbol; library code inlined into excluded symbols does not occur",
+                            "data-dependent instruction latency is not visible in a PC/address trace", "only amd64 and 386 back ends that execute here"]},
     "C09": {"engine": "apimon", "configs": {"quick": [("K0", 1)], "thorough": [("K0", 1), ("K2", 0.1), ("K6", 0.1)]}, "floor": 1500, "rule": API_RULE_VERIFY},
     "C10": {"engine": "apimon", "configs": {"quick": [("K0", 1)], "thorough": [("K0", 1), ("K2", 0.25), ("K6", 0.1)]}, "floor": 15000,
             "rule": "32-byte strings (special y values, all y >= p, mixed-order points in every encoding, garbage, random) decoded by the library and the model; every string is non-trivial (about half decode); distinct = FNV-64 of the string"},
@@ -665,4 +811,4 @@ def replay_apimon(path, v, cfg, spec):
     return p.returncode
 
 
-REPLAYERS = {"apimon": replay_apimon, "transcript": replay_transcript, "conc": replay_conc}
+REPLAYERS = {"apimon": replay_apimon, "transcript": replay_transcript, "conc": replay_conc, "ct": replay_ct}
